@@ -2,6 +2,7 @@
 # usage: check.sh <ID> <quick|thorough>   — rebuilds the explorer against /repo's working tree, runs one property check
 set -u
 cd "$(dirname "$0")"
+export XMC_VERIF="$(pwd)"
 export GOFLAGS=-mod=mod GOPROXY=off GOSUMDB=off GOTOOLCHAIN=local CGO_ENABLED=0
 ID="$1"; TIER="${2:-${VERIF_TIER:-quick}}"
 mkdir -p bin evidence replays .work
